@@ -11,6 +11,7 @@ pub mod prelude;
 pub mod props;
 pub mod report;
 pub mod rng;
+pub mod scenarios;
 pub mod solver;
 pub mod world;
 
@@ -49,6 +50,19 @@ fn main() {
     // keep panic messages of expected (caught) panics quiet unless verbose
     if std::env::var("VX_VERBOSE").is_err() {
         std::panic::set_hook(Box::new(|_| {}));
+    }
+    if prop == "SELFTEST" {
+        // differential self-test: run the shared scenarios on the stand-in (decisions follow the concrete shadow values)
+        bls12_381::symex::begin(vec![], bls12_381::symex::DrawMode::Free, seed);
+        bls12_381::symex::set_max_decisions(2_000_000);
+        let r = scenarios::run_all(seed);
+        let v: Vec<_> = r.iter().map(|(n, b)| serde_json::json!([n, b])).collect();
+        let s = serde_json::to_string(&v).unwrap();
+        match out {
+            Some(p) => std::fs::write(p, s).unwrap(),
+            None => println!("{}", s),
+        }
+        return;
     }
     eng::init(&prop, tier, seed);
     let r = std::panic::catch_unwind(std::panic::AssertUnwindSafe(|| props::run(&prop, tier, seed)));
